@@ -1793,4 +1793,76 @@ theorem from_trimesh3_tetra_refined (ρ : K) (gc p0 p1 p2 p3 : V3 K) (hV : vol4 
   exact ⟨(from_trimesh3_subdivided sq ρ gc gc _ hct n pt hpt).trans b1,
     (from_trimesh3_subdivided sq ρ gc gc _ (closed3_flip_append _ _ hct hct).1 n pt hpt).trans b2⟩
 
+/-! ### 2-D `from_trimesh` is covariant under isometries -/
+
+/-- a triangle moved by an isometry -/
+def moveTri (m : Iso2 K) (t : Triangle2 K) : Triangle2 K :=
+  ⟨@Iso2.act K (fieldNum K sq) m t.a, @Iso2.act K (fieldNum K sq) m t.b, @Iso2.act K (fieldNum K sq) m t.c⟩
+
+/-- the triangle parts of a rigidly moved triangle list: same total mass, first moment moved, second moment about the
+transported point unchanged -/
+theorem parts_moved (hs : LawfulSqrt sq) (ρ : K) (hρ : 0 ≤ ρ) (m : Iso2 K) (hu : m.re * m.re + m.im * m.im = 1)
+    (ts : List (Triangle2 K)) :
+    let F := @fromTriangle K (fieldNum K sq) ρ
+    totMass ((ts.map (moveTri sq m)).map F) = totMass (ts.map F) ∧
+    totFx ((ts.map (moveTri sq m)).map F) = m.re * totFx (ts.map F) - m.im * totFy (ts.map F) + m.t.x * totMass (ts.map F) ∧
+    totFy ((ts.map (moveTri sq m)).map F) = m.im * totFx (ts.map F) + m.re * totFy (ts.map F) + m.t.y * totMass (ts.map F) ∧
+    ∀ p : V2 K, totMoment ((ts.map (moveTri sq m)).map F) (@Iso2.act K (fieldNum K sq) m p) = totMoment (ts.map F) p := by
+  intro F
+  induction ts with
+  | nil => exact ⟨rfl, by simp [totFx, totFy, totMass], by simp [totFx, totFy, totMass], fun _ => rfl⟩
+  | cons t l ih =>
+    obtain ⟨i1, i2, i3, i4⟩ := ih
+    rcases t with ⟨⟨ax, ay⟩, ⟨bx, by'⟩, ⟨cx, cy⟩⟩
+    have hc : cross (moveTri sq m (⟨⟨ax, ay⟩, ⟨bx, by'⟩, ⟨cx, cy⟩⟩ : Triangle2 K)) = cross (⟨⟨ax, ay⟩, ⟨bx, by'⟩, ⟨cx, cy⟩⟩ : Triangle2 K) := by
+      simp only [moveTri, cross, Iso2.act, Iso2.rot, V2.add]
+      linear_combination ((bx - ax) * (cy - ay) - (by' - ay) * (cx - ax)) * hu
+    have hS : sumSqSides (moveTri sq m (⟨⟨ax, ay⟩, ⟨bx, by'⟩, ⟨cx, cy⟩⟩ : Triangle2 K)) = sumSqSides (⟨⟨ax, ay⟩, ⟨bx, by'⟩, ⟨cx, cy⟩⟩ : Triangle2 K) := by
+      simp only [moveTri, sumSqSides, Iso2.act, Iso2.rot, V2.add]
+      linear_combination (((bx - ax) ^ 2 + (by' - ay) ^ 2) + ((cx - bx) ^ 2 + (cy - by') ^ 2) + ((ax - cx) ^ 2 + (ay - cy) ^ 2)) * hu
+    refine ⟨?_, ?_, ?_, ?_⟩
+    · simp only [totMass, List.map_cons, List.sum_cons, F] at i1 ⊢
+      rw [i1, (part_closed sq hs ρ hρ _ ⟨0, 0⟩).1, (part_closed sq hs ρ hρ _ ⟨0, 0⟩).1, hc]
+    · simp only [totFx, totFy, totMass, List.map_cons, List.sum_cons, F] at i2 ⊢
+      rw [i2, (part_closed sq hs ρ hρ _ ⟨0, 0⟩).1, (part_closed sq hs ρ hρ _ ⟨0, 0⟩).1, (part_closed sq hs ρ hρ _ ⟨0, 0⟩).2.1,
+        (part_closed sq hs ρ hρ _ ⟨0, 0⟩).2.1, (part_closed sq hs ρ hρ _ ⟨0, 0⟩).2.2.1, hc]
+      simp only [moveTri, Iso2.act, Iso2.rot, V2.add]
+      ring
+    · simp only [totFx, totFy, totMass, List.map_cons, List.sum_cons, F] at i3 ⊢
+      rw [i3, (part_closed sq hs ρ hρ _ ⟨0, 0⟩).1, (part_closed sq hs ρ hρ _ ⟨0, 0⟩).1, (part_closed sq hs ρ hρ _ ⟨0, 0⟩).2.1,
+        (part_closed sq hs ρ hρ _ ⟨0, 0⟩).2.2.1, (part_closed sq hs ρ hρ _ ⟨0, 0⟩).2.2.1, hc]
+      simp only [moveTri, Iso2.act, Iso2.rot, V2.add]
+      ring
+    · intro p
+      have i4p := i4 p
+      simp only [totMoment, List.map_cons, List.sum_cons, F] at i4p ⊢
+      rw [i4p, (part_closed sq hs ρ hρ _ _).2.2.2, (part_closed sq hs ρ hρ _ _).2.2.2, hc, hS]
+      simp only [moveTri, Iso2.act, Iso2.rot, V2.add]
+      rcases p with ⟨px, py⟩
+      simp only
+      linear_combination (|cross (⟨⟨ax, ay⟩, ⟨bx, by'⟩, ⟨cx, cy⟩⟩ : Triangle2 K)| / 2 * ρ *
+        ((px - (ax + bx + cx) / 3) ^ 2 + (py - (ay + by' + cy) / 3) ^ 2)) * hu
+
+/-- **2-D `from_trimesh` is covariant under isometries**: the mass properties of the rigidly moved triangle list are
+those of the original list transformed by `transform_by` (same mass, first moment and polar moment about every point). -/
+theorem from_trimesh2_moved (hs : LawfulSqrt sq) (ρ : K) (hρ : 0 ≤ ρ) (m : Iso2 K) (hu : m.re * m.re + m.im * m.im = 1)
+    (ts : List (Triangle2 K)) :
+    letI := fieldNum K sq
+    SameMoments (fromTrimeshTris ρ (ts.map (moveTri sq m))) ((fromTrimeshTris ρ ts).transformBy m) := by
+  obtain ⟨a1, a2, a3, a4⟩ := trimesh_moments sq hs ρ hρ (ts.map (moveTri sq m))
+  obtain ⟨b1, b2, b3, b4⟩ := trimesh_moments sq hs ρ hρ ts
+  obtain ⟨k1, k2, k3, k4⟩ := parts_moved sq hs ρ hρ m hu ts
+  obtain ⟨c1, -, c3, c4⟩ := transformBy_covariant sq (@fromTrimeshTris K (fieldNum K sq) ρ ts) m hu
+  refine ⟨by rw [a1, c1, b1, k1], ?_, ?_, ?_⟩
+  · rw [a2, c1, c3, k2, ← b2, ← b3, ← b1]
+    simp only [Iso2.act, Iso2.rot, V2.add]
+    ring
+  · rw [a3, c1, c3, k3, ← b2, ← b3, ← b1]
+    simp only [Iso2.act, Iso2.rot, V2.add]
+    ring
+  · intro q
+    rw [← act_invAct sq m hu q, a4, c4, k4, b4]
+/-- a non-identity unit rotation with a translation for `from_trimesh2_moved` (3-4-5) -/
+example : ((3:ℚ) / 5) * (3 / 5) + (4 / 5) * (4 / 5) = 1 := by norm_num
+
 end C13
